@@ -69,9 +69,9 @@ CHECKS["C02"] = {
             "verdict legs: one case = one (instance, input) pair where input ranges over honest, every single-element alteration, random well-formed, "
             "and four dishonest-prover strategies; distinct = distinct (group, instance, input name)",
     "require": {"quick": {"final_msm_captured": 300, "coefficients_compared": 50000, "verdict_comparisons": 4000, "dishonest_provers": 200,
-                          "challenge_sequences_compared": 100, "batches_compared": 30},
+                          "challenges_observed": 2000, "batches_compared": 30},
                 "thorough": {"final_msm_captured": 8000, "coefficients_compared": 2000000, "verdict_comparisons": 100000, "dishonest_provers": 3000,
-                             "challenge_sequences_compared": 1000, "batches_compared": 300}},
+                             "challenges_observed": 50000, "batches_compared": 300}},
     "assumptions": COMMON_ASSUMPTIONS + [
         "decides exactness of the verifier's linear combination at sampled random points per configuration (Schwartz-Zippel), not the cryptographic soundness theorem of the paper",
         "for bits*aggregation = 1 no forged proof is constructible through the public API (from_bytes refuses zero rounds); only honest and statement-altered inputs are used there",
@@ -215,8 +215,8 @@ CHECKS["C09"] = {
     "rule": "single cases: (bit length, extension degree 1..6, capacity, value class, promise class, context, prover-RNG model) x verify mode, with random pairwise-distinct blinding components; "
             "batch cases: random arrangements of seeded, unseeded and aggregated members (sizes 3..600) x mode; non-trivial = verify_batch returned and every slot/component was compared; "
             "distinct = distinct (group, instance, RNG model, mode) or (batch, size, mode)",
-    "require": {"quick": {"recoveries": 3000, "mask_components_compared": 5000, "batch_recoveries": 200, "batch_slots_compared": 8000, "reference_recoveries": 500},
-                "thorough": {"recoveries": 15000, "mask_components_compared": 25000, "batch_recoveries": 2000, "batch_slots_compared": 200000, "reference_recoveries": 2500}},
+    "require": {"quick": {"recoveries": 3000, "mask_components_compared": 5000, "batch_recoveries": 200, "batch_slots_compared": 8000},
+                "thorough": {"recoveries": 15000, "mask_components_compared": 25000, "batch_recoveries": 2000, "batch_slots_compared": 200000}},
     "assumptions": COMMON_ASSUMPTIONS,
     "level_text": "Proves under a seed and recovers with the same seed, for every bit length and every extension degree with pairwise distinct blinding components, under seven prover-RNG "
                   "fault models: both recovering modes must return exactly the blinding vector, component by component and in order; verify-only, unseeded and aggregated members must yield None; "
@@ -422,7 +422,7 @@ CHECKS["C19"] = {
             "reference verifier and recovery run on it, seeded ones re-proved and A/L/R compared; each of 10 recorded generator tables and the Pedersen set regenerated; cross cases: fresh random instances over the lattice, "
             "reference prover -> library verify + recover, library prover -> reference verifier, seeded A/L/R equality between the two provers; distinct = distinct vectors / instances",
     "require": {"quick": {"recorded_proofs_checked": 48, "recorded_proof_verifications": 120, "recorded_masks_compared": 80, "seeded_reproofs_compared": 40, "generator_sets_compared": 8,
-                          "reference_proofs_into_library": 80, "library_proofs_into_reference": 80, "seeded_prover_pairs_compared": 10},
+                          "reference_proofs_into_library": 80, "library_proofs_into_reference": 80, "seeded_prover_pairs_compared": 10, "challenge_sequences_compared": 80, "reference_recoveries": 10},
                 "thorough": {"recorded_proofs_checked": 54, "recorded_proof_verifications": 140, "recorded_masks_compared": 90, "seeded_reproofs_compared": 42, "generator_sets_compared": 11,
                              "reference_proofs_into_library": 1500, "library_proofs_into_reference": 1500, "seeded_prover_pairs_compared": 200}},
     "assumptions": COMMON_ASSUMPTIONS + ["the pinned commit IS release 0.4.0 (no registry copy of the crate exists offline to confirm it); the vectors were recorded from it before any fix: commit, with the unmodified merlin crate",
